@@ -169,6 +169,8 @@ impl RunStats {
             feed(crate::rng::label(k));
         }
         feed(64 - (self.switches + 1).leading_zeros() as u64);
+        feed(0xBB ^ (64 - (self.tables_created + 1).leading_zeros() as u64));
+        feed(0xCC ^ self.max_level as u64);
         if let Some(s) = &self.fault_site {
             feed(crate::rng::label(s));
         }
